@@ -68,14 +68,15 @@ def monitors_child(rec):
             bad += 1; _fail(rec, 'crps', 'definition: crps / decomposition differ from the definition (crps %r vs %r, reli %r, pot %r, unc %r vs climatology %r)' % (d['crps'], ref, d['reliability'], d['potential'], d['uncertainty'], clim['crps']),
                             obs=obs.tolist(), ens=ens.tolist()); continue
         # invariances
-        pm = nrng.permutation(m); pf = nrng.permutation(n); sh = rng.choice([-3.5, 10.0, 0.125]); sc = rng.choice([0.5, 2.0, 7.0])
+        pm = nrng.permutation(m); pf = nrng.permutation(n); sh = rng.choice([-3.5, 10.0, 0.125]); sc = rng.choice([0.5, 2.0, 7.0, 1e-9, 2.0 ** -40, 1e6])
         d1, _ = M.crps(obs, np.ascontiguousarray(ens[:, pm])); d2, _ = M.crps(obs[pf], np.ascontiguousarray(ens[pf, :]))
         d3, _ = M.crps(obs + sh, ens + sh); d4, _ = M.crps(obs * sc, ens * sc)
         keys = ['crps', 'reliability', 'resolution', 'uncertainty', 'potential']
         okm = all(abs(d1[k] - d[k]) <= 1e-9 * max(1, abs(d[k])) for k in keys)
         okf = all(abs(d2[k] - d[k]) <= 1e-9 * max(1, abs(d[k])) for k in keys)
         oks = all(abs(d3[k] - d[k]) <= 1e-8 * max(1, abs(d[k])) for k in keys)
-        okc = all(abs(d4[k] - sc * d[k]) <= 1e-9 * max(1, abs(sc * d[k])) for k in keys)
+        okc = all(abs(d4[k] - sc * d[k]) <= 1e-9 * max(abs(sc * d['uncertainty']), abs(sc * d['crps']), abs(sc * d[k])) for k in keys) \
+            and abs(d4['crps'] - (d4['reliability'] + d4['potential'])) <= 1e-9 * abs(sc) * max(abs(d['crps']), 1e-300)
         if not (okm and okf and oks and okc):
             bad += 1; _fail(rec, 'crps', 'invariance: member order %s, forecast order %s, shift %s, scaling %s' % (okm, okf, oks, okc), obs=obs.tolist(), ens=ens.tolist(), shift=sh, scale=sc,
                             member_perm=pm.tolist(), forecast_perm=pf.tolist())
